@@ -402,6 +402,34 @@ Example C08_shape_example_elimination :
   Condorcet.smith_schwartz (Hybrids.pairwise v) true = [1; 2; 3]%positive.
 Proof. vm_compute. repeat split; try reflexivity. discriminate. Qed.
 
+(* ---- wave 6: allocated score with fixes/C12-allocated-score-exhausted and C12-allocated-score-tie-seats applied
+   (Model/AllocScore.v alloc_select_x, Proofs/AllocShape_proofs.v): for EVERY profile with positive weights, every quota that
+   is positive on it (Hare, Droop of a non-empty electorate: C12_alloc_quota_positive), every 1 <= n <= number of candidates the
+   selector answers - no error outcome - and the answer is a well-shaped selection of n entries: distinct plain winners of the
+   votes, then possibly ONE tie repeated once per seat it contests, with more members than those seats and none of the
+   winners.  [orders] (the iteration order of every Tie frozenset, an input of the model) lists each tie without repetition. *)
+From VL Require Proofs.AllocShape_proofs.
+Theorem C08_shape_allocated_score : forall ra qs orders (votes : AllocScore.wprofile) (n : nat),
+  AllocScore.ra_exhausted ra = true -> AllocScore.ra_tieseats ra = true ->
+  AllocScore_proofs.wpos votes -> Forall (@NoDup C) orders ->
+  (0 < AllocScore.ac_quota (AllocScore.alloc_cfg qs orders votes n [] (map (fun c => (c, 1%Z)) (AllocScore.all_scored votes))))%Q ->
+  (1 <= n <= length (Convert.cands_score votes))%nat ->
+  exists r, AllocScore.alloc_select_x ra qs orders votes n = inl r /\
+            sel_shape (Convert.cands_score votes) n r /\ sel_shape_ok (Convert.cands_score votes) n r = true.
+Proof.
+  intros ra qs orders votes n H1 H2 Hp Ho Hq Hn.
+  destruct (AllocShape_proofs.alloc_select_x_shape ra qs orders votes n H1 H2 Hp Ho Hq Hn) as (r & E & Hf).
+  exists r. split; [exact E|]. pose proof (Shape2_proofs.nform_shape _ _ _ Hf) as Hs. split; [exact Hs|]. apply sel_shape_reflect, Hs.
+Qed.
+
+(* the hypotheses hold on the recorded witnesses: three level candidates for two seats (one tie, listed twice), the
+   exhausted-ballots crash profile *)
+Example C08_shape_allocated_score_example :
+  AllocScore.alloc_select_x AllocScore.arepaired (Quota.QNamed 1) [] AllocScore_proofs.w_tie3 2 = inl [TieR [1; 2; 3]%positive; TieR [1; 2; 3]%positive] /\
+  AllocScore.alloc_select_x AllocScore.arepaired (Quota.QNamed 1) [] AllocScore_proofs.w_crash 2 = inl [Cand 1%positive; Cand 2%positive] /\
+  AllocScore_proofs.wposb AllocScore_proofs.w_tie3 = true /\ Convert.cands_score AllocScore_proofs.w_tie3 = [1; 2; 3]%positive.
+Proof. vm_compute. repeat split; reflexivity. Qed.
+
 Print Assumptions C08_selection_normal_form.
 Print Assumptions C08_selection_shape.
 Print Assumptions C08_checker_reflects.
@@ -440,3 +468,4 @@ Print Assumptions C08_shape_baldwin.
 Print Assumptions C08_shape_positional.
 Print Assumptions C08_shape_allocated_score_refuted.
 Print Assumptions C08_shape_approval.
+Print Assumptions C08_shape_allocated_score.
